@@ -181,6 +181,11 @@ def ser_instrs(types, instrs, tree, out, san, st, scope, in_chunk):
                 put_value(types, out, ins[1], hard_value(ins[1], ins[2]), None, False, san, scope)
         elif tag == "chunked":
             ser_instrs(types, ins[1], tree, out, True, st, scope, True)
+            if not in_chunk:
+                # the unit's own chunked section is over: what it declares after the section is outside chunked mode,
+                # also when the unit itself was entered in sanitising mode (nested in a chunked parent) - the write-side
+                # mirror of des_instrs' mr.set_mode(False), and the documented mechanism ("off at exit")
+                san = False
         elif tag == "break":
             st["missing"] = False
             out.append(0xFF)
